@@ -54,8 +54,7 @@ ASSUMPTIONS = [
     "NotImplementedError; covered: nsec3_hash with every argument spelling, the owner name built from it, and the "
     "agreement of the NSEC3 RDATA text with the hash",
     "textual arguments of nsec3_hash are ASCII in the model (str.upper of non-ASCII letters, IDNA are outside it)",
-    "recorded findings still in the tree: Chaosnet A lower-cased; unimplemented RFC 4034 §6.2 types opaque; NSEC bitmap "
-    "of a delegation point announces non-authoritative types (model parameter NsecConsts.cutTypes); "
+    "recorded findings still in the tree: Chaosnet A lower-cased; unimplemented RFC 4034 §6.2 types opaque; "
     "dnskey_rdataset_to_cdnskey_rdataset yields DNSKEY-typed records (not repaired: an upstream test pins the wrong type); "
     "make_ds_rdataset typing DNSKEY input as CDS was repaired in ff90ef6 and DS is the reference",
     "argument spellings of make_ds and the DS/CDS/CDNSKEY rdataset helpers, verify_digest() from the zone's own ZONEMD "
@@ -825,7 +824,7 @@ def eval_signzone(ctx, c, rep):
         r, v = outcome(lambda: dns.dnssec.sign_zone(z, add_dnskey=False, rrset_signer=signer2), lambda _: "")
     impl = ("ok " + (" ".join(events) or "-")) if v is not None or r.startswith("ok") else r
     if route != "adddnskey":
-        ctx.corr(f"c15.signzone {1 if VARIANTS['cut'] == 'intended' else 0} {enc_labels(origin.labels)} 1 " + " ".join(order), impl, c)
+        ctx.corr(f"c15.signzone {enc_labels(origin.labels)} 1 " + " ".join(order), impl, c)
     ctx.count("signzone." + sig_family(r) + (".rel" if c["rel"] else ".abs") + "." + route + "." + c.get("zclass", "plain"))
     if not r.startswith("ok"):
         ctx.fail("C15/sign_zone/raises:" + r.split(" ")[1], f"sign_zone -> {r}", rep)
@@ -1653,7 +1652,7 @@ def replay(ctx: Ctx, obj: dict):
 
 LEVEL = {
     "text": "Lean 4 theorems over an executable model of the key-free DNSSEC code paths (lean/Model/Dnssec.lean): the behavioural canonicalisation table regenerated from every implemented (class,type) equals the RFC 4034 §6.2 list minus NSEC (decide over the whole table), canonical forms decode with a pointer-free decoder, key tag = RFC 4034 App. B for all byte strings, RRSIG signing input = RFC 4034 §3.1.8.1 incl. wildcard reduction and error cases, DS input composition, NSEC3 iteration = RFC 5155 §5 recurrence and base32hex translation, type bitmaps exact/ascending/minimal, NSEC chain over the secure names, ZONEMD exclusions. The model is tied to the code by a differential correspondence check over every modelled function and an independent Python RFC reference evaluated on the implementation.",
-    "note": "Trusted: Lean kernel + propext/Classical.choice/Quot.sound; statements in lean/Props/C15.lean; correspondence harness and generators; harness/extract_C15.py; hashlib. The order facts of the NSEC chain are discharged from C06; partial only where the three recorded findings force it (Chaosnet A, unimplemented §6.2 types, delegation-point bitmap).",
+    "note": "Trusted: Lean kernel + propext/Classical.choice/Quot.sound; statements in lean/Props/C15.lean; correspondence harness and generators; harness/extract_C15.py; hashlib. The order facts of the NSEC chain are discharged from C06; partial only where the recorded findings force it (Chaosnet A; unimplemented §6.2 types have no table rows).",
     "technique": "Lean 4 proof (induction, invariants over the loops, decide over a complete finite table) + model-vs-implementation correspondence + independent RFC reference oracle",
     "design_ref": "DESIGN.md §7 C15",
 }
